@@ -85,16 +85,21 @@ class C02(Prop):
                   "unrelated (implied by 'all tokens of one depth', C02_uniform_depth_groups_unrelated): the emitted "
                   "combinations are exactly the full cross product, each once, with the composite tag "
                   "(C02_cartesian_partial), and two arrival orders give equal bags "
-                  "(C02_order_independent_cartesian_partial). Three _refuted theorems exhibit the input classes in which "
+                  "(C02_order_independent_cartesian_partial); (4) nesting as the CWL translator builds it -- dot( dot(S) or "
+                  "cartesian_d(S), Q... ) -- the inner combinator emits what its specification says and the outer one "
+                  "broadcasts the tokens of Q to every inner combination, exactly once each, at whatever order the "
+                  "tokens arrive (C02_nested_partial, C02_nested_cartesian_partial; the well-formedness of the list of "
+                  "inner combinations is a hypothesis stated on the specification). Three _refuted theorems exhibit the input classes in which "
                   "the faithful model breaks the property text (a tag and its ancestor on one port of a dot product; a "
                   "cartesian combinator with an inner combinator; a cartesian combinator over tokens of different depth). "
-                  "NOT proved: broadcast with several scattered ports or several tag levels, nested combinators; these "
+                  "NOT proved: broadcast with several independently scattered ports on one flat dot product or several tag "
+                  "levels, trees deeper than 2; these "
                   "are decided case by case by an oracle written from the property text on the real code (combine() and "
                   "CombinatorStep.run) under all / many arrival permutations, and the model (dict order, pop from the "
                   "right, tag re-binding, exceptions included) is compared with the real code on every such run.")
     LEVEL_NOTE = ("Universally quantified theorems cover the flat dot product, single-scattered-port broadcast and the "
-                  "uniform-depth cartesian product with their order independence; general antichain broadcast and nesting "
-                  "rest on differential testing against the model plus the text oracle. Trusted: Coq kernel + "
+                  "uniform-depth cartesian product with their order independence, and the translator's nested trees; "
+                  "general per-port-antichain broadcast rests on differential testing against the model plus the text oracle. Trusted: Coq kernel + "
                   "vm_compute; the hand-written model Comb/Model.v; CPython dict/deque/itertools. Loop combinators are "
                   "not covered here. No axioms.")
     TECHNIQUE = ("Coq proof (closed-form state invariants over arrival lists; NoDup + membership for the cross product) + vm_compute "
@@ -184,11 +189,40 @@ class C02(Prop):
         return {"f": "dot", "comb": {"kind": "dot", "depth": 0, "items": ports}, "tokens": toks,
                 "orders": [seq, rev, back, inter, sh], "mode": "step" if rng.random() < 0.2 else "combine"}
 
+    def _nested_scatter_case(self, rng):
+        """the tree translator._create_residual_combinator builds: dot( scatter-combinator(b, c), a [, d] ), the
+        scattered ports carrying prefix.i, the others one token tagged prefix, in port-by-port and shuffled orders"""
+        ikind = rng.choice(["dot", "dot", "cart"])
+        inner = {"kind": ikind, "depth": 1, "name": "in1", "ports": ["b", "c"]}
+        q = rng.choice([["a"], ["a", "d"]])
+        pre = rng.choice(["0", "0", "0.1", "0.10"])
+        w = rng.randrange(2, 5) if ikind == "cart" else rng.choice([2, 3, 5, 11, 12])
+        toks, per = [], []
+        for p in ["b", "c"]:
+            idx = []
+            for i in range(w):
+                idx.append(len(toks))
+                toks.append([p, len(toks), f"{pre}.{i}"])
+            per.append(idx)
+        for p in q:
+            per.append([len(toks)])
+            toks.append([p, len(toks), pre])
+        seq = [i for idx in per for i in idx]
+        rev = [i for idx in reversed(per) for i in idx]
+        orders = [seq, rev]
+        for _ in range(3):
+            sh = seq[:]
+            rng.shuffle(sh)
+            orders.append(sh)
+        return {"f": "dot-" + ikind, "comb": {"kind": "dot", "depth": 0, "items": [inner] + q}, "tokens": toks,
+                "orders": orders, "mode": "step" if rng.random() < 0.2 else "combine"}
+
     def gen(self, rng, tier):
         n = {"quick": 260, "thorough": 2500, "extended": 1500}[tier]
         out = []
         for i in range(n):
-            out.append(self._scatter_case(rng) if i % 20 == 7 else self._case(rng, tier))
+            out.append(self._scatter_case(rng) if i % 20 == 7 else
+                       self._nested_scatter_case(rng) if i % 20 == 13 else self._case(rng, tier))
         return out
 
     # ---------------------------------------------------------------- implementation
@@ -363,8 +397,14 @@ class C02(Prop):
             byport.setdefault(p, []).append(t)
         anc = any(a != b and _comparable(a, b) or (a == b and i != j)
                   for ts in byport.values() for i, a in enumerate(ts) for j, b in enumerate(ts))
-        if "cart" in _label(case["comb"]) and len({t.count(".") for _, _, t in case["tokens"]}) > 1:
-            return "mixed-depth"
+        # mixed depth is judged on the ports the cartesian combinator itself reads
+        lab = _label(case["comb"])
+        if "cart" in lab:
+            cart_ports = set(_ports(case["comb"]))
+            if lab == "dot-cart":
+                cart_ports = {p for it in case["comb"]["items"] if not isinstance(it, str) for p in it["ports"]}
+            if len({t.count(".") for p, _, t in case["tokens"] if p in cart_ports}) > 1:
+                return "mixed-depth"
         if anc:
             return "ancestor-pair-on-port"
         return "antichain-ports"
